@@ -152,6 +152,10 @@ func runPathHistory(c *run.Ctx) (res run.Result) {
 		res.Count("path/loads/"+api.name, 1)
 		res.SetAdd("path/apis", api.name)
 		res.SetAdd("path/formats", f.Format)
+		if f.STLHeader != "" {
+			res.SetAdd("path/stl_header_kinds", f.STLHeader)
+			res.Count("path/stl_loads/header-kind/"+f.STLHeader, 1)
+		}
 		if truncated {
 			sig = append(sig, fmt.Sprintf("T%d", which))
 			res.Count("path/truncated_loads/"+api.name, 1)
